@@ -1083,7 +1083,7 @@ class Frame:
 
 
 BUILTINS = {"range", "len", "int", "float", "abs", "round", "enumerate", "zip", "min", "max", "sum", "str", "bool",
-            "isinstance", "type", "list", "tuple", "print", "complex", "reversed", "sorted", "any", "all", "divmod",
+            "isinstance", "type", "list", "tuple", "print", "complex", "reversed", "sorted", "any", "all", "divmod", "slice",
             "ValueError", "TypeError", "IndexError", "ZeroDivisionError", "Exception", "NotImplementedError", "object"}
 
 
